@@ -946,5 +946,7 @@ def r125(rep: Report, ctx: Ctx) -> None:
     from .c05 import main_walk_loop
     rep.rule("R1.25", "the main loop of the walk dispatches on (event / "
              "logic node, inside a block, successor, break point) as pinned "
-             "(= C05 R5.21)", 10)
+             "(= C05 R5.21)", 20)
     main_walk_loop(rep, ctx, "R1.25")
+    from .c05 import merge_point
+    merge_point(rep, ctx, "R1.25")
